@@ -131,6 +131,10 @@ func (t *Telnet) handleControlChars(a *Args) error {
 func (t *Telnet) Open(a *Args) error {
 	var err error
 
+	// data collected while an earlier connection of this transport object was opening (and never
+	// read, e.g. because that open failed) does not belong to the new connection
+	t.initialBuf = nil
+
 	if sc := simhook.Dial(tcp, fmt.Sprintf("%s:%d", a.Host, a.Port)); sc != nil {
 		t.c = sc
 
